@@ -136,8 +136,9 @@ def run(ctx):
     ctx.ob('C25.lsb-first', 'TxShifter.load', len(ld) == 1 and q.has(ld[0], EMP) and q.has(ld[0], 'self.i_enable'),
            ld[0].loc if ld else None, 'shifter loads a new byte only when empty (what o_empty reports: %s) and enabled' % EMP)
     rs = ctx.ir('RxShifter', 'receiver', width=8)
-    up = [d for d in rs.drivers('shift_reg', exact=True) if d.rhs.canon() == 'Cat(self.i_data, shift_reg[0:8])']
-    down = [d for d in rs.drivers('shift_reg', exact=True) if d.rhs.canon() == 'Cat(shift_reg[1:9], self.i_data)']
+    srd = q.merged_drivers(rs, 'shift_reg')            # written whole or slice by slice: one form
+    up = [d for d in srd if isinstance(d.rhs, E) and d.rhs.canon() == 'Cat(self.i_data, shift_reg[0:8])']
+    down = [d for d in srd if isinstance(d.rhs, E) and d.rhs.canon() == 'Cat(shift_reg[1:9], self.i_data)']
     rp = ctx.ir('RxPipeline', 'receiver')
     wd = rp.drivers('payload_fifo.w_data', exact=True)
     ctx.need(len(wd) == 1, 'RxPipeline payload_fifo.w_data driver')
